@@ -338,3 +338,93 @@ def pratt_branches(g, rule, fs=None):
             n, f = fs.seq(br[1])
             out.append(("right", None if n else f, bi))
     return out
+
+
+# -------------------------------------------------------------------------------------------------
+# follow sets (textbook), with lelwel's end-of-input convention: the start rule is followed by EOF and by the end token of
+# every part; a part rule is followed by its own end token EOF<PascalCaseName>
+# -------------------------------------------------------------------------------------------------
+def pascal(name):
+    res = ""
+    upper = True
+    for c in name:
+        if upper:
+            res += c.upper()
+            upper = False
+        elif c == "_":
+            upper = True
+        else:
+            res += c
+    return res
+
+
+class Follow:
+    def __init__(self, g, fs=None):
+        self.g = g
+        self.fs = fs or First(g)
+        self.follow = {r: set() for r in g.rules}
+        if g.start in self.follow:
+            self.follow[g.start].add("EOF")
+            for p in g.parts:
+                self.follow[g.start].add("EOF" + pascal(p))
+        for p in g.parts:
+            if p in self.follow:
+                self.follow[p].add("EOF" + pascal(p))
+        changed = True
+        while changed:
+            before = {r: len(s) for r, s in self.follow.items()}
+            for r, body in g.rules.items():
+                if body is not None:
+                    self.walk(body, set(self.follow[r]), None)
+            changed = any(len(self.follow[r]) != before[r] for r in before)
+
+    def walk(self, t, F, visit):
+        """propagate the follow context F into t; `visit(node, F)` is called for every node when given"""
+        g, fs = self.g, self.fs
+        if visit:
+            visit(t, F)
+        k = t[0]
+        if k == "name":
+            if t[1] in g.rules:
+                self.follow[t[1]] |= F
+        elif k == "cat":
+            ops = t[1]
+            for i, o in enumerate(ops):
+                n, f = fs.seq(ops[i + 1:])
+                self.walk(o, set(f) | (set(F) if n else set()), visit)
+        elif k in ("alt", "oc"):
+            for o in t[1]:
+                self.walk(o, set(F), visit)
+        elif k == "opt":
+            self.walk(t[1], set(F), visit)
+        elif k in ("star", "plus"):
+            self.walk(t[1], set(fs.of(t[1])[1]) | set(F), visit)
+        elif k == "paren":
+            if t[1] is not None:
+                self.walk(t[1], set(F), visit)
+
+
+def features(g):
+    """which constructs a grammar uses (to decide what an analysis supports)"""
+    out = set()
+
+    def rec(t, rule):
+        if t is None:
+            return
+        k = t[0]
+        if k == "oc":
+            out.add("ordered_choice")
+        if k == "pred":
+            out.add("predicate")
+        if k in ("alt", "oc", "cat"):
+            for o in t[1]:
+                rec(o, rule)
+        elif k in ("star", "plus", "opt", "paren"):
+            rec(t[1], rule)
+    for r, body in g.rules.items():
+        rec(body, r)
+        if any(k in ("left", "leftright") for k, _, _ in pratt_branches(g, r)):
+            out.add("left_recursion")
+    if g.parts:
+        out.add("parts")
+    return out
